@@ -298,8 +298,64 @@ def pair_adapters_demux(ctx):
             ctx.nontriv(("pair-adapters-demux", tuple(argv)))
 
 
+def mixed_anchored_demux(ctx):
+    """the usual way to demultiplex - anchored barcodes, default mode (adapter index) - with a mixed set: several anchored adapters of one kind and
+    a single one of the other kind. With -e 0 and exact copies the file of a read that carries exactly one of the adapters is known by construction."""
+    rng = ctx.rng
+    for _ in range(ctx.scale(10, 120)):
+        front_many = rng.random() < 0.5
+        many = [pipe.rs(rng, rng.randint(8, 10)) for _ in range(rng.randint(2, 4))]
+        lone = pipe.rs(rng, rng.randint(8, 10))
+        specs = [("-g", f"m{i}=^{a}") if front_many else ("-a", f"m{i}={a}$") for i, a in enumerate(many)]
+        specs.append(("-a", f"lone={lone}$") if front_many else ("-g", f"lone=^{lone}"))
+        rng.shuffle(specs)
+        mode = rng.choice(["plain", "discard", "untrimmed"])
+        argv = ["-e", "0"] + [t for fs in specs for t in fs]
+        if mode == "discard":
+            argv.append("--discard-untrimmed")
+        elif mode == "untrimmed":
+            argv += ["--untrimmed-output", "{dir}/ut1.fastq"]
+        argv += ["-o", "{dir}/dm-{name}.1.fastq"]
+        reads, expect = [], {}
+        for i in range(rng.randint(10, 16)):
+            body = pipe.rs(rng, rng.randint(12, 20), "AC")
+            k = rng.random()
+            if k < 0.45:
+                j = rng.randrange(len(many))
+                s_, name = (many[j] + body if front_many else body + many[j]), f"m{j}"
+            elif k < 0.85:
+                s_, name = (body + lone if front_many else lone + body), "lone"
+            else:
+                s_, name = body, None
+            reads.append((f"r{i}", s_, "I" * len(s_)))
+            expect[f"r{i}"] = name
+        case = dict(argv=argv, paired=False, reads1=reads, reads2=None, with_qual=True, interleaved_in=False)
+        if rng.random() < 0.3:
+            case["cores"], case["buffer_size"] = 2, 500
+        res, real = pipe.run_real(case)
+        ctx.evaluations += 1
+        ctx.count("mixed-anchored-demux")
+        inp = dict(case_input(case), cores=case.get("cores"))
+        if "error" in real:
+            ctx.failures.append(Failure("C15/run-failed", "demultiplexing by anchored adapters fails on a valid command line", inp, real["error"], None))
+            continue
+        where = {}
+        for fn, recs in real["files"].items():
+            for r in recs:
+                where.setdefault(rid(r[0]), set()).add(fn.rsplit(".", 2)[0] if fn.startswith("dm-") else fn.split(".")[0])
+        for k_, name in expect.items():
+            exp = {f"dm-{name}"} if name else (set() if mode == "discard" else {"ut1"} if mode == "untrimmed" else {"dm-unknown"})
+            if where.get(k_, set()) != exp:
+                ctx.failures.append(Failure("C15/wrong-file", "a read that carries exactly one of the anchored adapters (exact copy, -e 0) is not in the file named after it",
+                                            inp, dict(read=k_, files=sorted(where.get(k_, set()))), sorted(exp)))
+                break
+        else:
+            ctx.nontriv(("mixed-anchored-demux", tuple(argv)))
+
+
 def run(ctx):
     pair_adapters_demux(ctx)
+    mixed_anchored_demux(ctx)
     pipeprop.run(ctx, "C15", FOCUS, oracle, 120, 2500,
                  "random command lines with focus on demultiplexing plus directed cases: named adapters (incl. duplicate names) on R1 (and R2), single/paired/"
                  "combinatorial, with and without --discard-untrimmed/--untrimmed-output; non-trivial = distinct read whose file was checked",
